@@ -32,8 +32,12 @@ def run_one(name, tier):
         if rc != 0:
             rc, out = sh(['git', '-C', wt, 'apply', '-3', patch])
         if rc != 0:
-            sh(['git', '-C', wt, 'checkout', '--', '.'])
+            # a failed 3-way apply leaves conflict markers and unmerged index entries behind
+            sh(['git', '-C', wt, 'reset', '--hard', '-q'])
             rc, out = sh('patch -p1 --fuzz=3 --no-backup-if-mismatch < %s' % patch, cwd=wt)
+        if rc == 0:
+            # whatever way the patch went in, the result must at least import
+            rc, out = sh([PY, '-c', 'import hcipy'], cwd=wt, env=dict(os.environ, PYTHONPATH=wt, PYTHONWARNINGS='ignore'))
         if rc != 0:
             # seeds were written against the /repo HEAD of their time; later fix: commits can move their context
             res['status'] = 'patch-no-longer-applies'
